@@ -2,6 +2,7 @@ package main
 
 import (
 	"fmt"
+	"go/token"
 	"go/types"
 	"regexp"
 	"strconv"
@@ -32,6 +33,29 @@ func calleeName(c *ssa.CallCommon) string {
 	case *ssa.MakeClosure:
 		pkg, key := funcKey(f.Fn.(*ssa.Function))
 		return pkg + "." + key
+	}
+	// a function value read from a struct field is named after the field: dynamic.LoopData.OnDir
+	var fa *ssa.FieldAddr
+	switch v := c.Value.(type) {
+	case *ssa.UnOp:
+		if v.Op == token.MUL {
+			fa, _ = v.X.(*ssa.FieldAddr)
+		}
+	case *ssa.Field:
+		if st, ok := v.X.Type().Underlying().(*types.Struct); ok {
+			if nt, ok := v.X.Type().(*types.Named); ok {
+				return "dynamic." + nt.Obj().Name() + "." + st.Field(v.Field).Name()
+			}
+		}
+	}
+	if fa != nil {
+		if pt, ok := fa.X.Type().Underlying().(*types.Pointer); ok {
+			if st, ok := pt.Elem().Underlying().(*types.Struct); ok {
+				if nt, ok := pt.Elem().(*types.Named); ok {
+					return "dynamic." + nt.Obj().Name() + "." + st.Field(fa.Field).Name()
+				}
+			}
+		}
 	}
 	return "dynamic." + c.Value.Name()
 }
@@ -192,7 +216,9 @@ func (x *fnCtx) callFunction(st *State, fr *Frame, in ssa.Instruction, callee *s
 			return
 		}
 		x.eng.logAbs("%s: callee %s has no contract and cannot be inlined: heap havoced", x.short, full)
+		havocPkg = calleeTypesPkg(callee)
 		x.havocAllHeap(st, "callee "+full, args...)
+		havocPkg = nil
 		var res *Val
 		if rt != nil {
 			res = x.havocVal(st, rt, shortPkg(pkg)+"."+key)
@@ -357,6 +383,9 @@ type specEnv struct {
 	names map[string]nameBind
 	bound map[string]*Val
 	fr    *Frame
+	// closed: references read from the current heap outside quantifiers are assumed to be nil or
+	// allocated (the heap is closed under allocation, as for the loads of the program itself)
+	closed bool
 }
 
 func (x *fnCtx) applyContract(st *State, fr *Frame, in ssa.Instruction, con *Contract, sig *types.Signature, callee *ssa.Function, args []*Val, rt types.Type, full string) *Val {
@@ -383,7 +412,7 @@ func (x *fnCtx) applyContract(st *State, fr *Frame, in ssa.Instruction, con *Con
 		}
 		names[fmt.Sprintf("$%d", i)] = nameBind{v: a}
 	}
-	env := &specEnv{x: x, st: st, heap: st.heap, old: st.heap, names: names, fr: fr, pkg: con.Pkg}
+	env := &specEnv{x: x, st: st, heap: st.heap, old: st.heap, names: names, fr: fr, pkg: con.Pkg, closed: true}
 	short := x.curShort(fr)
 	// preconditions are obligations of the caller
 	for _, cl := range con.ClausesOf("requires") {
@@ -406,7 +435,12 @@ func (x *fnCtx) applyContract(st *State, fr *Frame, in ssa.Instruction, con *Con
 		if !con.HasMod && !con.Pure {
 			x.eng.logAbs("%s: contract of %s has no modifies clause: heap havoced at call", x.short, full)
 		}
+		if !con.KeepStable {
+			havocPkg = calleeTypesPkg(callee)
+		}
+		havocExcept = con.KeepExcept
 		x.havocAllHeap(st, "modifies * of "+full, args...)
+		havocPkg, havocExcept = nil, nil
 	} else {
 		for _, m := range con.Modifies {
 			x.havocMatching(st, m)
@@ -1055,4 +1089,20 @@ func sexprMentions(e *SExpr, names map[string]bool) bool {
 		}
 	}
 	return false
+}
+
+func calleeTypesPkg(callee *ssa.Function) *types.Package {
+	if callee == nil {
+		return nil
+	}
+	if callee.Pkg != nil {
+		return callee.Pkg.Pkg
+	}
+	if p := callee.Parent(); p != nil {
+		return calleeTypesPkg(p)
+	}
+	if o := callee.Object(); o != nil {
+		return o.Pkg()
+	}
+	return nil
 }
